@@ -190,7 +190,16 @@ pub fn canon_parts(q: &Query, r: &Result<QueryReply, QueryError>) -> String {
 }
 
 /// Worker loop: reads request lines from stdin, one answer line per request on stdout.
+/// The worker loop, on a thread whose stack size is `RKH_STACK_KB` KiB when that variable is set
+/// (C04 runs it with the 1 MiB of a wasm instance, the smallest stack Rink is deployed on).
 pub fn worker() -> i32 {
+    match std::env::var("RKH_STACK_KB").ok().and_then(|v| v.parse::<usize>().ok()) {
+        Some(kb) => std::thread::Builder::new().stack_size(kb * 1024).spawn(worker_loop).expect("spawn worker thread").join().unwrap_or(101),
+        None => worker_loop(),
+    }
+}
+
+fn worker_loop() -> i32 {
     std::panic::set_hook(Box::new(|info| {
         let loc = info.location().map(|l| format!("{}:{}", l.file().rsplit("/repo/").next().unwrap_or(l.file()), l.line())).unwrap_or_default();
         *PANIC_SITE.lock().unwrap() = loc;
